@@ -4,7 +4,7 @@ A program (JSON-able dict):
   ents: int
   pre:  [ {tgt, kind, time, daemon, hook, cancelled} ]         pre-run events, in scheduling order
   defs: [ {ent, kind, gen, segs: [ {acts: [...], term: [...]} ]} ]
-    acts: ["E", tgt, kind, delay_ns, daemon, hook] | ["X", kind] | ["R", f, v] | ["A", f, g...] |
+    acts: ["E", tgt, kind, delay_ns, daemon, hook] | ["EP", tgt, kind, back_ns, daemon] | ["X", kind] | ["R", f, v] | ["A", f, g...] |
           ["L", f, g...] | ["N", f] | ["C", ent] | ["U", ent]
     term: ["Y", delay_seconds_float] | ["W", f] | ["Z"]
   end:  int ns | None
@@ -90,14 +90,19 @@ class Harness:
                 return evs
 
             def _gen(self, d, pid, event):
+                outbox = []     # one list object reused for every `yield delay, events` of this process
                 for seg in d["segs"]:
                     pending = H.run_acts(self, seg["acts"])
+                    if d.get("reuse_list"):
+                        outbox.clear()
+                        outbox.extend(pending)
+                        pending = outbox
                     term = seg["term"]
                     if term[0] == "Y":
                         now = self.now.nanoseconds
                         tag = H.next_tag()
                         H.trace.append(f"y {tag} {pid} {now + delay_ns(term[1])} {1 if event.daemon else 0} {now} {self.idx}")
-                        sent = yield (term[1], pending) if pending else term[1]
+                        sent = yield (term[1], pending) if (pending or d.get("reuse_list")) else term[1]
                         H.emit_log(f"R {self.now.nanoseconds} {pid} {fmt_val(sent)} {tag}")
                     elif term[0] == "W":
                         H.trace.append(f"w {pid} {term[1]} {1 if event.daemon else 0}")
@@ -149,6 +154,9 @@ class Harness:
             if op == "E":
                 _, tgt, kind, dns, dm, hk = a
                 out.append(self.make_event(now + dns, tgt, kind, dm, hk, now))
+            elif op == "EP":
+                _, tgt, kind, back, dm = a
+                out.append(self.make_event(max(0, now - back), tgt, kind, dm, 0, now))
             elif op == "X":
                 p = self.last_kind.get(a[1])
                 if p is not None:
@@ -229,6 +237,8 @@ def program_lines(prog):
             for a in seg["acts"]:
                 if a[0] == "E":
                     acts.append(f"E {a[1]} {a[2]} {a[3]} {1 if a[4] else 0} {a[5]}")
+                elif a[0] == "EP":
+                    acts.append(f"EP {a[1]} {a[2]} {a[3]} {1 if a[4] else 0}")
                 else:
                     acts.append(" ".join(str(x) for x in a))
             t = seg["term"]
